@@ -66,6 +66,10 @@ class FieldData:
     elif self.virtual:
       raise gfapy.RuntimeError("Virtual lines do not have tags")
     elif (self.vlevel == 0) or self._is_valid_custom_tagname(fieldname):
+      if hasattr(self.__class__, fieldname):
+        raise gfapy.FormatError(
+          "'{}' cannot be used as tag name: ".format(fieldname)+
+          "it is the name of a method or attribute of the line")
       self._define_field_methods(fieldname)
       if self._datatype.get(fieldname, None) is not None:
         return self._set_existing_field(fieldname, value)
